@@ -2,7 +2,13 @@
 //! here, seeded from VERIF_SEED / --seed, the property id, the workload name and the shard.
 
 #[derive(Clone, Debug)]
-pub struct Rng(pub u64);
+pub struct Rng {
+    state: u64,
+    /// "tape" mode (fuzzer-driven generation): values are read from these bytes instead of the
+    /// PRNG, so that a coverage/comparison-guided fuzzer steers the generators; when the tape runs
+    /// out the PRNG (seeded from the tape) takes over
+    tape: Option<(std::rc::Rc<Vec<u8>>, usize)>,
+}
 
 pub fn mix(mut z: u64) -> u64 {
     z = z.wrapping_add(0x9e3779b97f4a7c15);
@@ -23,24 +29,49 @@ pub fn hash_bytes(b: &[u8]) -> u64 {
 
 impl Rng {
     pub fn new(seed: u64) -> Rng {
-        Rng(mix(seed ^ 0x5851f42d4c957f2d))
+        Rng {
+            state: mix(seed ^ 0x5851f42d4c957f2d),
+            tape: None,
+        }
+    }
+    pub fn from_tape(bytes: &[u8]) -> Rng {
+        Rng {
+            state: mix(hash_bytes(bytes)),
+            tape: Some((std::rc::Rc::new(bytes.to_vec()), 0)),
+        }
     }
     pub fn derive(seed: u64, label: &str, k: u64) -> Rng {
         Rng::new(seed ^ hash_bytes(label.as_bytes()) ^ mix(k))
     }
     pub fn u64(&mut self) -> u64 {
-        self.0 = self.0.wrapping_add(0x9e3779b97f4a7c15);
-        let mut z = self.0;
+        if let Some((t, pos)) = &mut self.tape {
+            if *pos + 8 <= t.len() {
+                let v = u64::from_le_bytes(t[*pos..*pos + 8].try_into().unwrap());
+                *pos += 8;
+                return v;
+            }
+        }
+        self.state = self.state.wrapping_add(0x9e3779b97f4a7c15);
+        let mut z = self.state;
         z = (z ^ (z >> 30)).wrapping_mul(0xbf58476d1ce4e5b9);
         z = (z ^ (z >> 27)).wrapping_mul(0x94d049bb133111eb);
         z ^ (z >> 31)
     }
     pub fn below(&mut self, n: u64) -> u64 {
         if n == 0 {
-            0
-        } else {
-            self.u64() % n
+            return 0;
         }
+        // tape mode: small choices cost one byte, so that the fuzzer's mutations map to choices
+        if n <= 256 {
+            if let Some((t, pos)) = &mut self.tape {
+                if *pos < t.len() {
+                    let v = t[*pos] as u64;
+                    *pos += 1;
+                    return v % n;
+                }
+            }
+        }
+        self.u64() % n
     }
     pub fn usize(&mut self, n: usize) -> usize {
         self.below(n as u64) as usize
